@@ -9,6 +9,7 @@ pub mod c04;
 pub mod c05;
 pub mod c07;
 pub mod c08;
+pub mod c10;
 pub mod c12;
 pub mod c12b;
 pub mod c13;
@@ -27,6 +28,7 @@ pub fn run(prop: &str, report: &Report) -> i32 {
         "C05" => c05::run(report),
         "C07" => c07::run(report),
         "C08" => c08::run(report),
+        "C10" => c10::run(report),
         "C12" => c12::run(report),
         "C13" => c13::run(report),
         "C14" => c14::run(report),
@@ -47,6 +49,15 @@ pub fn replay(f: &Failure) -> i32 {
         "c05" => crate::core::replay_case(f, c05::case),
         "c07" => crate::core::replay_case(f, c07::case),
         "c08" => crate::core::replay_case(f, c08::case),
+        "c10a_varint" => crate::core::replay_case(f, c10::case_varint),
+        "c10b_pn" => crate::core::replay_case(f, c10::case_pn),
+        "c10b_pn_diff" => crate::core::replay_case(f, c10::case_pn_diff),
+        "c10c_frames" => crate::core::replay_case(f, c10::case_frames),
+        "c10d_packets" => crate::core::replay_case(f, c10::case_dgram),
+        "c10e_tparams" => crate::core::replay_case(f, c10::case_tp),
+        "c10f_tokens" => crate::core::replay_case(f, c10::case_token),
+        "c10f_cid_any" => crate::core::replay_case(f, c10::case_cid_any),
+        "c10g_total" => crate::core::replay_case(f, c10::case_total),
         "c12a" => crate::core::replay_case(f, c12::case),
         "c12b" => crate::core::replay_case(f, c12b::case_hist),
         "c12b-init" => crate::core::replay_case(f, c12b::case_init),
